@@ -444,6 +444,40 @@ def r4_r6_motions(repo: Repo, rep):
     all_corners = len(images) >= 4 or uses_abs or "itertools.product" in src or "meshgrid" in src
     rep.check(R4, all_corners, fi.site(), fi.fq, "every corner of the inner box is rotated (4 in 2-D) or |R| is applied to the half-widths",
               f"{len(images)} rotated corner(s): {[a[:50] for a in corner_args]}", f"rotated corners: {len(images)}")
+    # the pivot / translation enters the flat layout [min_0, max_0, min_1, max_1, ..]: each component twice in a row
+    R7 = rep.rule("R-C18-8", "offsets added to a box follow its layout [min_i, max_i]: every component of the offset vector is repeated twice in place (repeat_interleave(v, 2, dim=1))", floor=2,
+                  why="tiling (v, v) instead puts the y-offset on the x-maximum")
+    for mod, cname, fn in (("translate", "Translate", "self.translate_fn"), ("rotate", "Rotate", "self.rotate_around")):
+        ci = repo.cls(f"{ops}.{mod}.{cname}")
+        fi = ci.methods.get("bounding_box")
+        found = 0
+        for p in paths(fi.node):
+            if p.ret is RAISE or p.ret is None:
+                continue
+            seen = set()
+            for e in p.events:
+                if e.value is None:
+                    continue
+                for c in ast.walk(e.value):
+                    if not isinstance(c, ast.Call) or fn + "(" not in dump(c):
+                        continue
+                    name = c.func.attr if isinstance(c.func, ast.Attribute) else ""
+                    ch = attr_chain(c.func) or ""
+                    if name in ("repeat", "tile", "expand") and fn + "(" in dump(c.func.value) and dump(c) not in seen:
+                        seen.add(dump(c))
+                        found += 1
+                        rep.violation(R7, fi.site(e.node), fi.fq, "offset components repeated in place (min and max of one axis get the same shift)", dump(c)[:100], "offset tiled")
+                    if ch.endswith("repeat_interleave") and dump(c) not in seen:
+                        seen.add(dump(c))
+                        args = list(c.args) if ch.startswith("torch.") else [c.func.value] + list(c.args)
+                        cnt = args[1] if len(args) > 1 else kwarg(c, "repeats")
+                        dim = args[2] if len(args) > 2 else kwarg(c, "dim")
+                        found += 1
+                        rep.check(R7, cnt is not None and dump(cnt) == "2" and dim is not None and dump(dim) in ("1", "-1"), fi.site(e.node), fi.fq,
+                                  "repeat_interleave(offset, 2, dim=1)", dump(c)[:100], dump(c)[:100])
+            break
+        if found == 0:
+            rep.undecided(R7, fi.site(), fi.fq, "the replication of the offset vector", "not found")
     for mod, cname in (("translate", "Translate"), ("rotate", "Rotate")):
         ci = repo.cls(f"{ops}.{mod}.{cname}")
         fi = ci.methods.get("bounding_box")
